@@ -84,6 +84,11 @@ func (mv *MessageView) SnapshotRequest(req *http.Request) error {
 		// The target of a CONNECT is the authority alone.
 		target = req.URL.Host
 	}
+	if req.URL.Path == "*" && req.URL.RawQuery == "" {
+		// Asterisk form ("OPTIONS *"): URL.String puts a slash in front of the
+		// asterisk once the URL has a host.
+		target = "*"
+	}
 	fmt.Fprintf(buf, "%s %s HTTP/%d.%d\r\n", req.Method,
 		target, req.ProtoMajor, req.ProtoMinor)
 
